@@ -262,9 +262,7 @@ theorem ransom_reach (st : State) (i : Nat) (q : Sql) :
           · exact h1.trans ((handleQuery_reach (st1.ransomConnect i c2).1 _ _).mono (fun e he => Or.inr he))
 
 theorem tick_srv (st : State) : st.tick.srv =
-    (serverTick st.srv st.bk (st.t + 1)
-      ({ st with t := st.t + 1, clients := st.clients.map clientTick } : State).ftpReq
-      ({ st with t := st.t + 1, clients := st.clients.map clientTick } : State).ftpResp).1 := rfl
+    (serverTick st.srv st.bk (st.t + 1) (st.bk.node.isOn && !st.blockFtpReq) (st.bk.node.isOn && !st.blockFtpResp)).1 := rfl
 
 /-- The refinement: every operation acts on the server through permitted events only. -/
 theorem step_reach (st : State) (op : Op) : Reach (OpAllows op) st.srv (step st op).1.srv := by
